@@ -31,7 +31,10 @@ EXPLANATION = (
     "itself is redundant with the nested grader's post_schema_ans_val and is not demanded); post_schema_ans_val converts "
     "exactly the string entries; (D7) for unordered lists the Munkres solver itself is pinned to the reviewed reference by the "
     "C06 rule families INIT / RESULT / STEPS (per-cell effect tables of every step): necessary structural conditions of an optimal "
-    "matching, not a proof of optimality.")
+    "matching, not a proof of optimality; (D8) find_optimal_order builds one row per submitted item and one column per expected "
+    "item, hands the solver a cost that is a strictly decreasing *affine* function of the item credit (int/round/floor/ceil/// "
+    "wrappers are recognised as lossy: the matching would be optimised over rounded credits while credits are summed unrounded) "
+    "and reads the pairs back as [row][col] in row order.")
 NOT_DECIDED = (
     "permutation invariance and the exhaustive optimum of the unordered matching (they rest on C06's undecided "
     "optimality clause; C05-D2 decides only that the right matrix is handed over and read back), floating-point "
@@ -43,7 +46,7 @@ SLG = 'mitxgraders.listgrader.SingleListGrader'
 
 def check(ctx):
     idx = ctx.index
-    for fn in (d1_formula, d2_single_return, d3_process, d4_check_response, d5_padding, d6_infer, d7_solver):
+    for fn in (d1_formula, d2_single_return, d3_process, d4_check_response, d5_padding, d6_infer, d7_solver, d8_matrix):
         cm.guarded(ctx, fn, idx)
 
 
@@ -735,17 +738,30 @@ def d4_check_response(ctx, idx):
                 if not src_ok:
                     r.undecided(construct, 'blank-item scan `%s`' % short(comp), lib.loc(fi, comp))
                 else:
-                    res = nf.classify(["_I.strip() == ''", "not _I.strip()"], gen.ifs[0])
-                    if isinstance(res, tuple):
-                        r.violation(construct, 'blank items are detected by `%s` (%s)' % (short(gen.ifs[0]), res[1]), lib.loc(fi, comp),
-                                    expected="item.strip() == ''", found=short(gen.ifs[0]))
-                    elif res == nf.MATCH:
-                        r.ok(construct, "missing_error and some item.strip() == ''", lib.loc(fi, comp))
-                    elif nf.match("_I == ''", gen.ifs[0]) is not None:
-                        r.violation(construct, "only exactly empty items count as blank: ' ' (spaces) is graded instead of refused",
+                    test = nf.canon(gen.ifs[0])
+                    tv = None
+                    for n_ in ast.walk(gen.target):
+                        if isinstance(n_, ast.Name) and any(cm.is_name(x, n_.id) for x in ast.walk(test)):
+                            tv = n_.id
+                    blank_forms = ["%s.strip() == ''", "not %s.strip()", "len(%s.strip()) == 0", "%s.isspace() or %s == ''",
+                                   "%s.isspace() or not %s", "not %s or %s.isspace()", "%s == '' or %s.isspace()"]
+                    empty_forms = ["not %s", "%s == ''", "len(%s) == 0", "not len(%s)"]
+
+                    def fits(forms):
+                        return tv is not None and any(nf.match(f.replace('%s', tv), test) is not None for f in forms)
+                    if fits(blank_forms):
+                        r.ok(construct, "missing_error and some item is empty or only whitespace", lib.loc(fi, comp))
+                    elif fits(empty_forms):
+                        r.violation(construct, "items are tested with `%s`, which is true only for a zero-length item: an item made of spaces "
+                                    "(e.g. 'a, ,b') is graded instead of raising the missing-entry error" % short(gen.ifs[0]),
                                     lib.loc(fi, comp), expected="item.strip() == ''", found=short(gen.ifs[0]))
                     else:
-                        r.undecided(construct, 'blank test `%s`' % short(gen.ifs[0]), lib.loc(fi, comp))
+                        res = nf.classify(["_I.strip() == ''"], gen.ifs[0])
+                        if isinstance(res, tuple):
+                            r.violation(construct, 'blank items are detected by `%s` (%s)' % (short(gen.ifs[0]), res[1]), lib.loc(fi, comp),
+                                        expected="item.strip() == ''", found=short(gen.ifs[0]))
+                        else:
+                            r.undecided(construct, 'blank test `%s`' % short(gen.ifs[0]), lib.loc(fi, comp))
         # order: length test before blank test before grading
         if length_r and blank_r:
             ln = [n for rs, g in length_r for n in cfg.nodes_of(rs)]
@@ -1178,9 +1194,20 @@ def d7_solver(ctx, idx):
     reference (C06.D2 INIT, C06.D3 RESULT, C06.D4 STEPS) here as well, so a change of the solver is reported under this id."""
     from . import c06
     r = ctx.rule('D7.SOLVER', 'the assignment solver equals the reviewed Munkres reference (state re-initialised per solve, '
-                 'result extraction, step table, per-cell step effects) -- a pin to the reference, not a proof of optimality', floor=72)
+                 'result extraction, step table, per-cell step effects) -- a pin to the reference, not a proof of optimality', floor=73)
     with r:
         c06.solver_rules(r, idx)
+
+
+# ------------------------------------------------------------------------------- D8
+def d8_matrix(ctx, idx):
+    """Unordered lists are graded through find_optimal_order: the matrix it builds, the cost it hands to the solver and the way it
+    reads the pairs back are obligations of this property too (same rule body as C05.D2.MATRIX)."""
+    from . import c05
+    r = ctx.rule('D8.MATRIX', 'find_optimal_order: rows = submitted items, columns = expected items, cost strictly decreasing and affine in '
+                 'the item credit (no rounding), results read back as [row][col] in row order', floor=11)
+    with r:
+        c05.matrix_body(r, idx)
 
 
 # ------------------------------------------------------------------------ self-test
@@ -1244,6 +1271,8 @@ MUTANTS = [
     Mutant('length-flag-ignored', LG, "if self.config['length_error'] and len(answers) != len(student_list):", "if len(answers) != len(student_list):", 'D4'),
     Mutant('length-check-after-grading', LG, _LEN_BLOCK + _MID, _MID[1:], 'D4'),
     Mutant('blank-no-strip', LG, "                         if item.strip() == '']", "                         if item == '']", 'D4'),
+    Mutant('blank-test-falsy', LG, "                         if item.strip() == '']", "                         if not item]", 'D4'),
+    Mutant('blank-test-zero-length', LG, "                         if item.strip() == '']", "                         if len(item) == 0]", 'D4'),
     Mutant('blank-flag-inverted', LG, "        if self.config['missing_error']:\n            bad_items", "        if not self.config['missing_error']:\n            bad_items", 'D4'),
     Mutant('unordered-unpadded', LG, "grade_list = find_optimal_order(checker, pad_ans, pad_stud)", "grade_list = find_optimal_order(checker, answers, student_list)", 'D4'),
     Mutant('unordered-raw-check', LG, "grade_list = find_optimal_order(checker, pad_ans, pad_stud)", "grade_list = find_optimal_order(self.config['subgrader'].check, pad_ans, pad_stud)", 'D4'),
@@ -1274,6 +1303,12 @@ MUTANTS = [
            "                elif not self.col_covered[j]:\n                    self.C[i][j] -= minval\n                    events += 1\n", 'D7'),
     Mutant('solver-step1-subtracts-max', MK, "            minval = min(vals)", "            minval = max(vals)", 'D7'),
     Mutant('solver-result-rows-over-n', MK, "        for i in range(self.original_length):", "        for i in range(self.n):", 'D7'),
+    # D8 (find_optimal_order, shared with C05.D2)
+    Mutant('matching-cost-rounded', LG, "        return 1 - result['grade_decimal']", "        return round(1 - result['grade_decimal'], 2)", 'D8'),
+    Mutant('matching-cost-truncated', LG, "        return 1 - result['grade_decimal']", "        return int(100 * (1 - result['grade_decimal']))", 'D8'),
+    Mutant('matching-cost-is-credit', LG, "        return 1 - result['grade_decimal']", "        return result['grade_decimal']", 'D8'),
+    Mutant('matching-matrix-transposed', LG, "[[check(a, i) for a in answers] for i in student_list]", "[[check(a, i) for i in student_list] for a in answers]", 'D8'),
+    Mutant('matching-readback-transposed', LG, "[result_matrix[i][j] for i, j in indexes]", "[result_matrix[j][i] for i, j in indexes]", 'D8'),
     # D6
     Mutant('infer-literal-delimiter', LG, "        answers = expect.split(self.config['delimiter'])", "        answers = expect.split(',')", 'D6'),
     Mutant('infer-recursion-on-self', LG, "answers[idx] = self.config['subgrader'].infer_from_expect(entry)", "answers[idx] = self.infer_from_expect(entry)", 'D6'),
@@ -1299,6 +1334,9 @@ BENIGN = [
     Benign('failure-test-as-any', LG, "        if isinstance(ans, _AutomaticFailure) or isinstance(inp, _AutomaticFailure):", "        if any(isinstance(entry, _AutomaticFailure) for entry in (ans, inp)):"),
     Benign('checks-in-helpers', LG, "        if self.config['length_error'] and len(answers) != len(student_list):\n            msg = 'List length error",
            "        if self.config['length_error'] and not len(answers) == len(student_list):\n            msg = 'List length error"),
+    Benign('matching-cost-scaled', LG, "        return 1 - result['grade_decimal']", "        return 100 * (1 - result['grade_decimal'])"),
+    Benign('blank-test-not-strip', LG, "                         if item.strip() == '']", "                         if not item.strip()]"),
+    Benign('blank-test-isspace', LG, "                         if item.strip() == '']", "                         if item == '' or item.isspace()]"),
     Benign('all-awarded-list-form', LG, "all(item['grade_decimal'] > 0 for item in grade_list)", "all([item['grade_decimal'] > 0 for item in grade_list])"),
     Benign('message-guard-nested', LG, "        if all_awarded and msg != '':\n            result['msg'] = msg if result['msg'] == '' else result['msg'] + '\\n' + msg",
            "        if all_awarded:\n            if msg != '':\n                result['msg'] = msg if result['msg'] == '' else result['msg'] + '\\n' + msg"),
